@@ -237,6 +237,9 @@ package cache
 //@   ensures calls(gzWrite) >= 1 && ret(gzWrite, 0, 1) != nil ==> result != nil && calls(gzWrite) == 1
 //@   ensures calls(gzWrite) == 2 && ret(gzWrite, 1, 1) != nil ==> result != nil
 //@   ensures result == nil ==> calls(gzWrite) == 2 && calls(blockReset) == 1 && ret(protoMarshal, 0, 1) == nil
+// the whole dump is ONE gzip stream whose single trailer, written by writeDump's final Close, is
+// what makes every truncated copy detectable: a block never ends (or restarts) the stream
+//@   ensures calls(gzClose) == 0 && calls(gzReset) == 0
 
 // writeDump: the entries are produced by one pass over the cache; an error from that pass is
 // returned; entries still buffered after the pass are written as a last block; errors of that block
@@ -248,6 +251,8 @@ package cache
 //@   ensures ret(cacheRange, 0) != nil ==> result_1 != nil && calls(gzClose) == 0
 //@   ensures ret(cacheRange, 0) == nil && aftercall(cacheRange, 0, len(block.Entries)) > 0 ==> calls(writeBlock) == 1 && (ret(writeBlock, 0) != nil ==> result_1 != nil)
 //@   ensures result_1 == nil ==> calls(gzClose) == 1 && ret(gzClose, 0) == nil
+//@   ensures calls(gzClose) <= 1 && calls(gzReset) == 0 && calls(gzNewWriter) == 1 && arg(gzNewWriter, 0, 0).val == w.val
+//@   ensures calls(gzClose) == 1 ==> callpos(gzClose, 0) > lastpos(writeBlock) && callpos(gzClose, 0) > callpos(cacheRange, 0)
 
 // readDump: blocks are read until one fails; only the end marker (EOF exactly at a block boundary)
 // ends the load without error — any other read or decode error is returned to the caller.
